@@ -63,6 +63,13 @@ func newGen(profile string, seed uint64, idx int) *genState {
 		}
 		g.pool = append(g.pool, u)
 	}
+	// the two extreme ids are ids like any other (the all-zero uuid is what a zero value of the type looks like)
+	switch idx % 3 {
+	case 1:
+		g.pool[0] = uuid.Nil
+	case 2:
+		g.pool[0] = uuid.Max
+	}
 	g.words = vocab
 	g.tagOK = idx%3 == 0
 	if profile == "c07" && idx%16 == 5 {
@@ -112,7 +119,13 @@ func (g *genState) pickSchema(idx int) schemaSpec {
 			sc = append(sc, idxSpec{path: "fv", kind: ixFlat, dim: g.dim, metric: "euclidean", q: quantSpec{kind: 2, trigger: 3 + r.IntN(4), metric: "hamming"}})
 			sc = append(sc, idxSpec{path: "vec", kind: ixVamana, dim: g.dim, metric: "euclidean", search: 30, degree: 32, alpha: 1.2})
 		default:
-			sc = append(sc, idxSpec{path: "vec", kind: ixVamana, dim: g.dim, metric: "dot", search: 25, degree: []int{4, 8}[r.IntN(2)], alpha: 1.2})
+			var vq quantSpec
+			if idx%6 == 5 {
+				// a graph index whose binary quantiser learns its threshold inside the history (the first insert batches
+				// have 3..7 points): what the training batch leaves in the file is what a reopened shard answers from
+				vq = quantSpec{kind: 2, trigger: 3 + r.IntN(5), metric: "hamming"}
+			}
+			sc = append(sc, idxSpec{path: "vec", kind: ixVamana, dim: g.dim, metric: "dot", search: 25, degree: []int{4, 8}[r.IntN(2)], alpha: 1.2, q: vq})
 		}
 		return sc
 	case "c06":
